@@ -20,8 +20,8 @@ THEOREMS = (["Gozod.C20.bisim_sound", "Gozod.C20.bisim_sound_full"]
        "Gozod.C20.c20_isodatetime_goparse_witness",] + ["Gozod.C20.c20_%s" % j for j in OPTION_JOBS] + [ "Gozod.C20.c20_base64url_pattern_partial", "Gozod.C20.c20_base64url_pattern_witness"]
     # IPv6 / CIDRv6 (certificates over the strings without '.' and '%'; witnesses for the three defect classes)
     + ["Gozod.C20.bisim_sound_R", "Gozod.C20.bisim_sound_R_full", "Gozod.C20.ipv6_hex_quot", "Gozod.C20.cidrv6_hex_quot",
-       "Gozod.C20.c20_ipv6_partial", "Gozod.C20.c20_ipv6_pattern_partial", "Gozod.C20.c20_cidrv6_pattern_partial",
-       "Gozod.C20.c20_ipv6_witnesses", "Gozod.C20.c20_ipv6_witness", "Gozod.C20.c20_ipv6_pattern_witness",
+       "Gozod.C20.c20_ipv6", "Gozod.C20.c20_ipv6_pattern_partial", "Gozod.C20.c20_cidrv6_pattern_partial",
+       "Gozod.C20.c20_ipv6_witnesses", "Gozod.C20.c20_ipv6_pattern_witness",
        "Gozod.C20.c20_cidrv6_pattern_witnesses", "Gozod.C20.c20_cidrv6_pattern_witness", "Gozod.C20.c20_cidrv6"]
     # the matcher is the language; concatenation; date-time = date (10 bytes) . tail; all 28 option sets
     + ["Gozod.Re.accepts_iff_lang", "Gozod.Re.accepts_seq", "Gozod.Re.accepts_alt", "Gozod.C20.date_length", "Gozod.C20.dateThen_split",
@@ -106,6 +106,18 @@ def describe(op):
                 "(fwd: precision nil,-1,0,1,2,3,9 x offset x local as listed in formats.go; rev: the reverse, in a second process): "
                 "the verdict depends on which variant was validated first" % (ctor, unhex(t[2]).decode("latin-1"), "reverse" if order == "rev" else "forward"))
     return "gozod.<%s constructor>().Parse(%r); pattern = jsonschema.ToJSONSchema(schema).Pattern matched with Go regexp" % (t[1], unhex(t[2]).decode("latin-1"))
+
+def fingerprints():
+    """(expected, found): structure fingerprints of the parser-based validators — recorded next to the Lean transcriptions
+    (Model/GoParsers.lean) vs extracted from pkg/validate by the translator (Gen/Regexes.lean)"""
+    exp, got = {}, {}
+    for l in open(os.path.join(C.LEAN, "Gozod", "Model", "GoParsers.lean")):
+        m = re.match(r"\s*-- fingerprint (\w+): (.*)$", l.rstrip("\n"))
+        if m: exp[m.group(1)] = m.group(2).strip()
+    for l in open(os.path.join(GEN, "Regexes.lean")):
+        m = re.match(r'def fp_(\w+) : String := (".*")$', l.rstrip("\n"))
+        if m: got[m.group(1)] = json.loads(m.group(2)).strip()
+    return exp, got
 
 def run_harness(res, extra_cases):
     rundir = os.path.join(C.BUILD, "run", "C20-%s-%d" % (res.tier, os.getpid()))
@@ -199,6 +211,11 @@ def run(res):
     C.decide(res, "C20", data, key, "C20/formats", describe=describe)
     if proof_problem and not res.violations:
         C.tie_broken(res, "proof Gozod.Proofs.C20", proof_problem)
+    exp, got = fingerprints()
+    cov["validator_fingerprints"] = got
+    bad = ["%s: expected [%s] found [%s]" % (k, exp.get(k), got.get(k)) for k in sorted(set(exp) | set(got)) if exp.get(k) != got.get(k)]
+    if bad and not res.violations:
+        C.tie_broken(res, "fingerprint of a parser-based validator (pkg/validate/validate.go vs Model/GoParsers.lean)", "\n".join(bad))
     cov["stdlib_recognisers_agreement"] = data[3].get("stdlib_recognisers", {})
     cov["rule"] = ("per format: fixed + random valid samples (boundary-biased octets, prefix lengths, leap years, digit counts) and hand-picked near misses; "
         "every single-edit neighbour of each (insert/substitute every alphabet byte and 20 foreign bytes at every position, delete, duplicate (separator), swap, "
